@@ -34,6 +34,7 @@ package main
 // Replay file:
 //   oracle c17limits
 //   limits <maxMailboxes> <maxMessages> <maxUID>
+//   S<i> RENAME <old> <new>   (judge op `rename old new`: the missing superiors of <new> count against the mailbox limit)
 //   S<i> APPEND <mbox> | S<i> COPY <src> <n | lo:hi> <dst> | S<i> MOVE <src> <n | lo:hi> <dst> | S<i> CREATE <name>
 //   S<i> DELETE <name> | S<i> EXPUNGE <mbox> <k> | K MBOX <name> | K BATCH <mbox> <n>
 //   K BATCH2 <mbox1> <n1> <mbox2> <n2> | RACE <mbox> | MODE tiny | W SELECT <mbox>
@@ -176,6 +177,7 @@ type limRunner struct {
 	// (known finding connector-echo-after-refusal), so from then on the connector's idea of which message is in which
 	// mailbox differs from gluon's, and the echo of a later, accepted command can carry that difference into gluon
 	diverged bool
+	renames  int // RENAME steps generated so far (fresh new names)
 	// tiny: small messages (MODE tiny); w: the watching session and the mailbox it has selected (W SELECT)
 	tiny bool
 	w    *Client
@@ -538,6 +540,16 @@ func (r *limRunner) exec(step string) error {
 			return rep.Err
 		}
 		op, status = "create "+f[2], st(rep)
+	case f[1] == "RENAME" && len(f) == 4:
+		c, err := sess()
+		if err != nil {
+			return err
+		}
+		rep := c.Cmd("RENAME " + awQuoteMB(f[2]) + " " + awQuoteMB(f[3]))
+		if rep.Err != nil {
+			return rep.Err
+		}
+		op, status = "rename "+f[2]+" "+f[3], st(rep)
 	case f[1] == "DELETE" && len(f) == 3:
 		c, err := sess()
 		if err != nil {
@@ -677,6 +689,29 @@ func (r *limRunner) genStep(g *Rng) string {
 				hi = g.Range(lo, src.count)
 			}
 			return fmt.Sprintf("%s %s %s %s %s", s, verb, src.name, limShowRange(lo, hi), dst.name)
+		case k >= 61 && k < 64:
+			// RENAME of a mailbox created over IMAP onto a fresh name with 0..3 missing superiors (a prefix no
+			// history uses otherwise: no inferior of the new name can collide), sometimes directly below an
+			// existing mailbox; near the mailbox limit this is what State.Rename's limit check is for
+			var cand []limMB
+			for _, m := range user {
+				if !r.connIDs[m.name] && m.name != "INBOX" {
+					cand = append(cand, m)
+				}
+			}
+			if len(cand) == 0 {
+				continue
+			}
+			old := Pick(g, cand).name
+			r.renames++
+			parts := []string{"n" + strconv.Itoa(r.renames), "m", "l", "x"}[:g.Range(1, 4)]
+			name := strings.Join(parts, "/")
+			if g.Intn(4) == 0 {
+				if up := Pick(g, user).name; up != old && !strings.HasPrefix(up, old+"/") {
+					name = up + "/" + name
+				}
+			}
+			return fmt.Sprintf("%s RENAME %s %s", s, old, name)
 		case k < 64:
 			depth := g.Range(1, 4)
 			var parts []string
